@@ -234,13 +234,14 @@ def reject_oracle_compound(rng):
     name = rng.choice(["Fusion", "DualVigilance", "Topo", "CVIART", "iCVIFuzzy"])
     z, X, y, ops, mode, eps = zoo.gen_zoo_history(rng, name)
     est = z["est"]
+    fresh = rng.random() < 0.3            # the invalid batch arrives at the very first call
     try:
-        for op, ix in ops:
+        for op, ix in ([] if fresh else ops):
             zoo.call(est, op, zoo.take(X, ix), None, mode, eps)
     except Exception:
         return None
     bad = np.array(X, dtype=float).copy()
-    how = rng.choice(["range", "width", "cc"])
+    how = rng.choice(["range", "cc"] if fresh else ["range", "width", "cc"])
     if how == "range":
         bad[rng.randrange(len(bad)), -1] = 1.5          # invalid in the LAST channel: earlier channels are validated first
     elif how == "width":
@@ -248,6 +249,8 @@ def reject_oracle_compound(rng):
     else:
         bad[0, -1] = bad[0, -1] + 0.3 if bad[0, -1] < 0.6 else bad[0, -1] - 0.3
     call = rng.choice(["fit", "partial_fit", "predict"]) if z["pf"] else rng.choice(["fit", "predict"])
+    if fresh and call == "predict":
+        call = "fit"
     before = zoo.canon(est)
     try:
         with contextlib.redirect_stdout(io.StringIO()):
